@@ -280,6 +280,7 @@ pub fn one_main<P: Prop>(path: &Path) -> i32 {
 pub fn run_one_child(prop: &str, profile: &str, path: &Path, stall_secs: u64) -> Result<Vec<Violation>, String> {
     let mut child = Command::new(exe_for(profile))
         .args(["one", prop, path.to_str().unwrap()])
+        .env("RUST_BACKTRACE", "0")
         .stdout(Stdio::piped())
         .stderr(Stdio::null())
         .spawn()
@@ -477,6 +478,7 @@ fn spawn_worker(prop: &str, profile: &'static str, tier: Tier, seed: u64, shard:
             &of.to_string(),
             &from.to_string(),
         ])
+        .env("RUST_BACKTRACE", "0")
         .stdout(Stdio::piped())
         .stderr(Stdio::inherit())
         .spawn()
